@@ -176,6 +176,32 @@ def multiply_constraint_rules(ck, F, rule):
             ck.require(okc, rule, f"multiply-constraint:{role}:{nm}", f"{role}'s multiply must record the constraint {nm} - {var}(new gate) = 0 (the given terms followed by the new wire with coefficient -1); {why}")
 
 
+def phase_separator_rule(ck, F, rule):
+    """`r1cs-1phase` is absorbed exactly when no randomized callback is registered, `r1cs-2phase` (then the callbacks)
+    exactly when at least one is -- on both roles, so that the same circuit takes the same branch"""
+    from ..alg import Bounds, Bytes
+
+    for role, prefix in (("prover", H.P_PRV), ("verifier", H.P_VER)):
+        for case, want in (("none", "r1cs-1phase"), ("some", "r1cs-2phase")):
+            I = H.new_interp(F)
+            I.bounds = Bounds()
+            st = state(role, None)
+            if case == "some":
+                ncb = isym("ncb")
+                I.bounds.add_le(1, ncb)
+                st.fields["deferred_constraints"] = Vec.atom("cb", ncb, mk=lambda e_: Opaque("callback", id=e_))
+            try:
+                I.call_fn(prefix + "create_randomized_constraints", [st])
+            except Unanalysable as u:
+                ck.fail(rule, f"phase-separator:{role}:{case}", f"unanalysable: {u.msg}", u.where, kind="unanalysable")
+                continue
+            flat = __import__("rules.analyses", fromlist=["flat_trace"]).flat_trace(I.trace.items)
+            seps = [it[1]["payload"].parts[0][1].decode(errors="replace") for it, ctx in flat if it[0] == "op" and it[1]["label"] == b"dom-sep" and isinstance(it[1]["payload"], Bytes) and not any(c_[0].startswith("alt") for c_ in ctx)]
+            users = [it for it, ctx in flat if it[0] == "user"]
+            ok = seps == [want] and (bool(users) == (case == "some"))
+            ck.require(ok, rule, f"phase-separator:{role}:{case}", f"with {'no' if case == 'none' else 'at least one'} randomized callback the {role} must absorb `{want}`{' and run the callbacks' if case == 'some' else ' and run nothing'}; it absorbs {seps} and runs {len(users)} callback site(s)", "src/r1cs/" + role + ".rs")
+
+
 def callbacks_rule(ck, F, rule):
     """create_randomized_constraints invokes every deferred callback exactly once, in order, on both roles"""
     for role, prefix in (("prover", H.P_PRV), ("verifier", H.P_VER)):
@@ -246,6 +272,7 @@ def body(ck, F, cfg):
     ck.sample({"transition": "allocate, pending=None", "summary": str(summary(F, "verifier", "allocate", None)["ret"])})
     constrain_rules(ck, F, "R16.1")
     callbacks_rule(ck, F, "R16.4")
+    phase_separator_rule(ck, F, "R16.4")
     # R16.3 half-open gate on the prover
     R = run_method(F, "prover", "allocate", None)
     sec = R["state"].fields["secrets"].fields
